@@ -36,6 +36,7 @@ class Run:
         self.atomize = atomize
         self.val = val
         self.env = {}
+        self.clobbered = set()
         self.events = []
         self.fn = fn
         self.steps = 0
@@ -91,6 +92,9 @@ class Run:
                     return v != 0
                 if isinstance(v, dict):
                     return self.truth(v)
+            if (n.get("ty") or "").replace("const ", "") == "bool" and n["ref"].get("kind") in ("local", "param"):
+                # a flag set inside a loop that is not interpreted: either value is possible
+                return self.atom("flag:" + n["ref"]["name"])
         if k == "BinaryOperator" and n.get("op") in ("==", "!=", "<", ">", "<=", ">="):
             a = self.intval(kids(n)[0])
             b = self.intval(kids(n)[1])
@@ -185,6 +189,14 @@ class Run:
             self.stmt(kids(s)[0])
         elif k in ("WhileStmt", "ForStmt", "DoStmt", "CXXForRangeStmt", "SwitchStmt",
                    "CXXTryStmt"):
+            # the construct is not interpreted: what it assigns is no longer known
+            from .ir import walk as _walk, ref_of as _ref_of
+            for y in _walk(s):
+                if y["k"] in ("BinaryOperator", "CompoundAssignOperator") and (y.get("op") or "").endswith("=") and y.get("op") not in ("==", "!=", "<=", ">="):
+                    d = _ref_of(kids(y)[0])
+                    if d is not None:
+                        self.env.pop(d, None)
+                        self.clobbered.add(d)
             self.events.append(("loop", s))
         elif k == "CXXThrowExpr":
             raise _Stop("throw", s)
